@@ -951,6 +951,41 @@ impl Thread {
         self.owned_context().gc.allocated_memory()
     }
 
+    /// Verification hook: identity of this thread's heap (key of `verif::owner_of`).
+    #[cfg(gluon_verif)]
+    pub fn verif_gc_id(&self) -> usize {
+        &self.owned_context().gc as *const Gc as usize
+    }
+
+    /// Verification hook: identity of the global (generation 0) heap.
+    #[cfg(gluon_verif)]
+    pub fn verif_global_gc_id(&self) -> usize {
+        &*self.global_state.gc.lock().unwrap() as *const Gc as usize
+    }
+
+    /// Verification hook: the parent thread, if any.
+    #[cfg(gluon_verif)]
+    pub fn verif_parent(&self) -> Option<&Thread> {
+        self.parent.as_ref().map(|p| &**p)
+    }
+
+    /// Verification hook: every object reachable from this thread's own roots (stack, rooted
+    /// values, and for the root generation the global state), without descending into other
+    /// threads. Nothing is marked or freed.
+    #[cfg(gluon_verif)]
+    pub fn verif_walk(&self) -> Vec<crate::verif::Node> {
+        let mut context = self.owned_context();
+        let me = unsafe { GcPtr::from_raw(self) };
+        crate::verif::begin_walk(me.verif_addr());
+        self.with_roots(&mut context, |gc, roots| roots.trace(gc));
+        if self.parent.is_none() {
+            // generation 0 roots (module globals, interner, macros) hang off the global state
+            let mut gc = self.global_state.gc.lock().unwrap();
+            self.global_state.trace(&mut gc);
+        }
+        crate::verif::end_walk()
+    }
+
     pub fn set_memory_limit(&self, memory_limit: usize) {
         self.owned_context().gc.set_memory_limit(memory_limit)
     }
